@@ -49,7 +49,7 @@ def run(tier, seed, replay=None):
     pid = "C12"
     res = Result(pid, tier, seed)
     orch.gen_mod.main()
-    lean_ok, lean_log, dt = orch.lake_build(["SafeC.Props.C12"])
+    lean_ok, lean_log, dt = orch.lake_build([t for t in orch.prop_targets("C12") if t != "safec_model"])
     obs = orch.obligations(pid)
     audit, _ = orch.audit_axioms(pid, obs) if lean_ok else ([dict(o, ok=False, axioms=None, error="build failed") for o in obs], "")
     forb = orch.forbidden_tokens()
